@@ -188,10 +188,13 @@ def recordOne (t : IntTy) : Record (Val t) := Record.constant (one t)
 
 /-! ### Floats: `n as f32`, `n as f64` -/
 
+/-- number of significant bits of `n` (`0` for `0`) -/
+def bitLen (n : Nat) : Nat := if n = 0 then 0 else n.log2 + 1
+
 /-- Round-to-nearest, ties-to-even, of the natural number `n` to `p` significant bits
     (`p = 24` for `f32`, `53` for `f64`).  Returns `(m, e)` meaning `m * 2^e`, with `m ≤ 2^p`. -/
 def roundNE (p : Nat) (n : Nat) : Nat × Nat :=
-  let l := if n = 0 then 0 else n.log2 + 1          -- bit length
+  let l := bitLen n
   if l ≤ p then (n, 0)
   else
     let s := l - p
@@ -218,9 +221,14 @@ def floatBits (p ebits : Nat) (me : Nat × Nat) : Nat :=
     let biased : Int := e' + (p - 1 : Nat) + bias
     biased.toNat * 2 ^ (p - 1) + (m' - 2 ^ (p - 1))
 
-/-- `(n as f32).to_bits()` -/
-def f32FromUsize (n : Nat) : Nat := floatBits 24 8 (roundNE 24 n)
-/-- `(n as f64).to_bits()` -/
-def f64FromUsize (n : Nat) : Nat := floatBits 53 11 (roundNE 53 n)
+/-- `from_usize_float!`: `Some(n as $T)` — always succeeds; the result is given as the pair
+    (rounded value `m * 2^e`, IEEE bit pattern) -/
+def floatFromUsize (p ebits : Nat) (n : Nat) : Option ((Nat × Nat) × Nat) :=
+  some (roundNE p n, floatBits p ebits (roundNE p n))
+
+/-- `<f32 as FromUsize>::from_usize(n).map(f32::to_bits)` -/
+def f32FromUsize (n : Nat) : Option Nat := (floatFromUsize 24 8 n).map (·.2)
+/-- `<f64 as FromUsize>::from_usize(n).map(f64::to_bits)` -/
+def f64FromUsize (n : Nat) : Option Nat := (floatFromUsize 53 11 n).map (·.2)
 
 end EasyMl.Num
